@@ -51,6 +51,10 @@ import types
 from mc.boot import HarnessError
 
 OWNED = 'calmjs.parse'
+# classes and functions of these packages are expanded (attributes, closures);
+# INSTANCES are expanded only for classes of OWNED, instances of anything else
+# (ply lexers / parsers, loggers, ...) are represented by their class name
+CODE_OWNED = ('calmjs.parse', 'ply')
 
 _RE_TYPE = type(re.compile(''))
 _SKIP_CLASS_KEYS = frozenset(['__dict__', '__weakref__'])
@@ -79,6 +83,11 @@ def clskey(t):
 def _is_owned_name(modname):
     return isinstance(modname, str) and (
         modname == OWNED or modname.startswith(OWNED + '.'))
+
+
+def _is_code_owned(modname):
+    return isinstance(modname, str) and any(
+        modname == p or modname.startswith(p + '.') for p in CODE_OWNED)
 
 
 def _module_level(cls):
@@ -230,7 +239,7 @@ class _Walk(object):
             [(k, self.fp(v)) for k, v in list(d.items())]))
 
     def cls(self, c, deep):
-        if not deep or not _is_owned_name(getattr(c, '__module__', None)):
+        if not deep or not _is_code_owned(getattr(c, '__module__', None)):
             return ('C', clskey(c))
         s = self._seen(c)
         if s is not None:
@@ -244,7 +253,7 @@ class _Walk(object):
                 tuple(items))
 
     def func(self, f):
-        if not _is_owned_name(getattr(f, '__module__', None)):
+        if not _is_code_owned(getattr(f, '__module__', None)):
             return ('F', getattr(f, '__module__', '?'),
                     getattr(f, '__qualname__', '?'))
         s = self._seen(f)
@@ -300,7 +309,7 @@ def owned_modules(skip=()):
     return names
 
 
-def global_fp(skip=(), only=None):
+def global_fp(skip=(), only=None, extra=()):
     """
     [(key, fingerprint)] over every global of every loaded calmjs.parse.*
     module; classes defined in a module are expanded (all class attributes),
@@ -310,12 +319,14 @@ def global_fp(skip=(), only=None):
     skip   substrings of module names to leave out (e.g. the large, pure data
            lextab_/yacctab_ modules for the per-history fingerprint)
     only   restrict to these module names
+    extra  further module names to include (e.g. 'ply.lex', 'ply.yacc')
     """
     w = _Walk()
     out = []
     names = owned_modules(skip)
     if only is not None:
         names = [n for n in names if n in only]
+    names = names + [n for n in extra if sys.modules.get(n) is not None]
     for name in names:
         m = sys.modules[name]
         d = vars(m)
@@ -433,12 +444,9 @@ def _read_all(fd, deadline):
     return b''.join(chunks)
 
 
-def fresh_child(fn, *args, **kw):
-    """
-    Run fn(*args) in a forked child of the calling (single threaded) process
-    and return the result.  The child never returns to the caller's code.
-    """
-    timeout = kw.pop('timeout', 120.0)
+def spawn(fn, *args):
+    """Fork a child that evaluates fn(*args); returns a handle for
+    `collect`.  Only from a single threaded process."""
     import threading
     if threading.active_count() != 1:
         raise HarnessError('fork requested while %d threads exist' %
@@ -462,6 +470,11 @@ def fresh_child(fn, *args, **kw):
         finally:
             os._exit(code)
     os.close(w)
+    return pid, r
+
+
+def collect(handle, timeout=120.0):
+    pid, r = handle
     try:
         data = _read_all(r, time.time() + timeout if timeout else None)
     finally:
@@ -472,17 +485,38 @@ def fresh_child(fn, *args, **kw):
         except OSError:
             pass
         os.waitpid(pid, 0)
-        raise HarnessError('fresh child exceeded %.0f s' % timeout)
+        raise HarnessError('forked child exceeded %.0f s' % timeout)
     _, st = os.waitpid(pid, 0)
     if not data:
-        raise HarnessError('fresh child died (status %r)' % st)
+        raise HarnessError('forked child died (status %r)' % st)
     kind, val = pickle.loads(data)
     if kind != 'ok':
-        raise HarnessError('fresh child raised\n%s' % val)
+        raise HarnessError('forked child raised\n%s' % val)
     return val
 
 
-def fork_trie(nops, maxdepth, step, prefix=(), timeout=600.0):
+def fresh_child(fn, *args, **kw):
+    """
+    Run fn(*args) in a forked child of the calling (single threaded) process
+    and return the result.  The child never returns to the caller's code.
+    """
+    return collect(spawn(fn, *args), kw.pop('timeout', 120.0))
+
+
+def fresh_children(fn, arglist, width=32, timeout=300.0):
+    """[fn(*a) for a in arglist], each in its own child forked from the
+    calling process; up to `width` children alive at a time (the caller does
+    nothing but wait meanwhile, so all children start from the same state)."""
+    out = []
+    arglist = list(arglist)
+    for lo in range(0, len(arglist), width):
+        handles = [spawn(fn, *a) for a in arglist[lo:lo + width]]
+        for h in handles:
+            out.append(collect(h, timeout))
+    return out
+
+
+def fork_trie(nops, maxdepth, step, prefix=(), timeout=600.0, width=32):
     """
     Explore every sequence over range(nops) that extends `prefix` up to length
     `maxdepth`, one fork per trie node.  The calling process must already be in
@@ -490,20 +524,25 @@ def fork_trie(nops, maxdepth, step, prefix=(), timeout=600.0):
     and must execute the LAST operation of `seq` (the earlier ones have been
     executed by its ancestors) and return a picklable record or None.
 
+    The children of the last level are forked `width` at a time (they all
+    start from the same state of the waiting parent); inner levels one at a
+    time, to bound the number of live processes.
+
     Returns (number of nodes visited, [records that were not None]).
     """
     if len(prefix) >= maxdepth:
         return 0, []
+
+    def node(seq):
+        rec = step(seq)
+        n, recs = fork_trie(nops, maxdepth, step, seq, timeout, width)
+        return 1 + n, ([rec] if rec is not None else []) + recs
+    seqs = [(prefix + (i,),) for i in range(nops)]
+    last = len(prefix) == maxdepth - 1
     total = 0
     out = []
-    for i in range(nops):
-        seq = prefix + (i,)
-
-        def node(seq=seq):
-            rec = step(seq)
-            n, recs = fork_trie(nops, maxdepth, step, seq, timeout)
-            return 1 + n, ([rec] if rec is not None else []) + recs
-        n, recs = fresh_child(node, timeout=timeout)
+    for n, recs in fresh_children(
+            node, seqs, width=width if last else 1, timeout=timeout):
         total += n
         out.extend(recs)
     return total, out
